@@ -11,6 +11,21 @@ NOTE = ("Trusted: Coq 8.16.1 kernel + vm_compute (no native_compute; coqchk in t
         "implementation. Modelled-not-verified: CPython primitives, re, json, hashlib, sockets, threads, time (DESIGN.md sections 3-4).")
 
 CHECKS = {
+    'C09': dict(technique='Coq: the packet reader never raises for any byte sequence/segmentation/close-or-stall point (structural recursion on the peer script), documented-exit theorem for the whole initial handshake incl. the SSH-1 fallback, bad-handshake => status 1; fault enumeration over valid transcripts against the real CLI; handshake correspondence',
+                text='Theorems: read_packet (SSH-1 and SSH-2 models) never yields an exception; every outcome of the initial handshake classifies to exit 1, the SSH-1 fallback, or a parsed message, so the audit ends through 0/1/2/3 and never Uncaught; a handshake without algorithm lists exits 1; ensure_read only succeeds with enough buffered bytes. Probe phases are contained by a blanket handler in the code (after the fix commits) - that part is established by enumeration: for five transcript archetypes every (connection, message, fault) of the quantifier, 1-byte segmentation, debug interleaving, pre-banner lines; status in {0,1,2,3}, no hang, time within budget, report kept iff the handshake was well-formed. PARTIAL: wall-clock bounds are observed only.',
+                ref='DESIGN.md section 5 C09'),
+    'C12': dict(technique='Coq: unbounded theorems over a model of GEXTest.run for ANY (stateful) server oracle (probe count, trace faithfulness, result = last answer, second pass, table-edit thresholds/monotonicity by induction/lia) + exhaustive kernel evaluation (vm_compute, forallb_forall) over the 6144-member family of the quantifier; model tied to gextest.py by vm_compute case files on the real GEXTest.run with a scripted _send_init and on the real CLI over TCP against scripted servers; statement oracle in Python',
+                text='Theorems: <=9 probes per algorithm; a reported size was handed out in this run and is the answer to the last probe; no answer -> no size; OpenSSH second pass = answer of the 2048-4096 probe with the note iff another size; <2048 failure naming the size, 2048..3071 the warning once, >=3072 no size note, larger never rated worse. Family (every subset of 9 sizes x strict/round-up/OpenSSH-fallback x banner x sha1/sha256): reported size and note = statement, EXCEPT exactly where the banner says OpenSSH and a configured 2048 is the smallest handed out (refuted witness + partial + exactness theorems; known finding openssh-banner-configured-2048). Thorough tier exhaustive over the family through the real CLI.',
+                ref='DESIGN.md section 5 C12'),
+    'C14': dict(technique='Coq: theorems for all well-formed version texts (induction over strings/lists, lia) about a hand-written model of compare_versions / compare_version incl. the regex split and patch rules, the recommendation filter and the time-frame slot rule; finite vm_compute only for the 11-element suffix domains and the generated table; model tied to the code by vm_compute case files; numeric-tuple Python oracle',
+                text='Proved: reading a dot-separated decimal text gives its numbers; compare_versions = lexicographic numeric order (prefix smaller); compare_version agrees with it whenever the numbers differ, is antisymmetric on the suffix domains, and is a total preorder (numbers, suffix rank) without p0; availability vs a table version iff numerically >=; the recommendation filter = exists token (product, role, numeric <=); every version token of the generated tables is well-formed; time-frame slots keep numeric max/min. Refuted and recorded: transitivity with OpenSSH p0; one-character versions are not split from a suffix.',
+                ref='DESIGN.md section 5 C14'),
+    'C18': dict(technique='Coq: forall-theorems (induction over strings/lists, lia) over a hand-written model of target parsing, command-line/targets-file handling, port validation, family preference and labels; model tied to the code by vm_compute case files fed from the real CLI run under a launcher with synthetic resolver and in-memory sockets; oracle from the property text',
+                text='Theorems for all inputs: every documented spelling parses to exactly the named endpoint, on the command line (with or without -p, which is only the default) and in a targets file with arbitrary blank/padded lines; a run resolves exactly (host, port, family) and dials only resolver answers of that host/family/port; a run that is rejected has resolved and dialled nothing; no port outside 1-65535 is ever resolved or dialled; single -4/-6 filter, stable family order; the rate check picks the audit address; text labels are documented spellings of the endpoint. Refuted and recorded: -64 order lost by argparse, JSON target of IPv6 unbracketed.',
+                ref='DESIGN.md section 5 C18'),
+    'C19': dict(technique='Coq: bounds on the connection log of the audit skeleton for every server behaviour (induction over the probe table / probe list / clock budget): host-key, GEX, rate check and whole-audit bounds; skeleton tied to the code by comparing predicted and server-observed probe sequences; server-side footprint oracle',
+                text='Theorems: at most one connection per advertised probe-table host-key type; at most 9 per offered GEX algorithm; rate-check attempts never exceed the cap for any clock budget and any answers, none when skipped or without DH kex; total <= 1 + H + 9G + 38; key-exchange requests only on probe connections. Oracle on the real CLI: counts per phase, requests per connection, concurrency, EOF seen on every connection before exit, rate connections with SSH/garbage/closing answers. PARTIAL: closed-at-exit is observed at the OS level, not proved.',
+                ref='DESIGN.md section 5 C19'),
     'C01': dict(technique='Coq: KEXINIT parse(write k)=k for all well-formed messages, shown-names = advertised-names theorems for the text and JSON views of the report model, SSH-1 mask decoding for every mask (induction); wire-to-report correspondence; CLI oracle in server and client role',
                 text='Theorems: parsing an encoded KEXINIT returns exactly its lists; per category the text report shows the advertised non-blank names once per occurrence in order, JSON shows every advertised name; no cross-category move; gss-*/size suffixes keep the advertised name as prefix; for every mask the SSH-1 names are the table entries with the bit set, in table order. Oracle: real CLI over TCP as server audit and client audit (-c), plain/batch/verbose/JSON, database/unknown/gss/duplicate/empty/4kB/non-UTF-8 names, compression and banner as sent, SSH-1 masks with -1.',
                 ref='DESIGN.md section 5 C01'),
